@@ -444,7 +444,8 @@ class Proto:
             if hf is not None:
                 self.inc_helpers.add(hf.key)
             cs = [E.lf(o) for o in i["ops"][1:]]
-            tup = tuple(c[0] if c is not None and lf_is_const(c) else None for c in cs)
+            from .c05 import norm_inc_args
+            tup = norm_inc_args(self.prog, f, i, [c[0] if c is not None and lf_is_const(c) else None for c in cs], self.BLOCK)
             if st.refills:
                 st.refills[-1]["incs"].append((i, tup))
             else:
